@@ -6,6 +6,7 @@ import (
 	"os"
 	"sync"
 	"sync/atomic"
+	"time"
 
 	abci "github.com/tendermint/tendermint/abci/types"
 	"github.com/tendermint/tendermint/libs/pubsub/query"
@@ -87,6 +88,9 @@ type Role struct {
 	// Rot is the node-local chain-state rotation setting (recent, every, cycles) from the node's config file; nil = the
 	// built-in default (10, 100, 10). Which old versions a node keeps on disk must not influence consensus results.
 	Rot *[3]int64 `json:"rot,omitempty"`
+	// TZ is the node host's local time zone as an offset from UTC in seconds (0 = UTC). time.Local is a process global;
+	// it is switched before every call on the replica, like the witness flag.
+	TZ int `json:"tz,omitempty"`
 }
 
 // TxRes is the consensus-relevant part of a DeliverTx response.
@@ -168,11 +172,20 @@ func NewReplica(name string, g *Genesis, c *Chain, role Role, dir string) (*Repl
 	return r, nil
 }
 
+// tzSwitched records that some replica changed time.Local (the sandbox runs in UTC; replicas without a zone restore it).
+var tzSwitched bool
+
 func (r *Replica) enter() {
 	mux.mu.Lock()
 	mux.cur = r.Idx
 	mux.mu.Unlock()
 	identity.VerifSetETHWitness(r.Role.IsWitness)
+	if r.Role.TZ != 0 {
+		time.Local = time.FixedZone(fmt.Sprintf("tz%+d", r.Role.TZ), r.Role.TZ)
+		tzSwitched = true
+	} else if tzSwitched {
+		time.Local = time.UTC
+	}
 	r.panics0 = app.VerifPanics()
 }
 
